@@ -97,6 +97,18 @@ func c14Scenarios(thorough bool) []c14Scenario {
 				{Op: "completion", Doc: "main.journal", Line: 8, Char: 4},
 				{Op: "formatting", Doc: "main.journal"},
 			}},
+		{Name: "S7-two-partial-configurations", Files: files, Config: true, Bound: b(2, 3),
+			InitCfg: `{"completion":{"maxResults":3}}`,
+			Msgs: []wire.Msg{
+				// the k-th pull is answered with the k-th payload: the first sets the
+				// indent and a limit of 2, the second only lowers the limit to 1
+				{Op: "configq", Text: `{"formatting":{"indentSize":2},"completion":{"maxResults":2}}`},
+				{Op: "configq", Text: `{"completion":{"maxResults":1}}`},
+				{Op: "open", Doc: "main.journal", Text: c14Main1},
+				{Op: "drain"},
+				{Op: "completion", Doc: "main.journal", Line: 8, Char: 4},
+				{Op: "formatting", Doc: "main.journal"},
+			}},
 		{Name: "S4-two-docs-semantic-tokens", Files: files, Bound: b(1, 2), Msgs: []wire.Msg{
 			{Op: "open", Doc: "main.journal", Text: c14Main0},
 			{Op: "open", Doc: "inc.journal", Text: c14Inc0},
@@ -307,7 +319,7 @@ func c14Resource(m wire.Msg) string {
 	switch m.Op {
 	case "open", "change":
 		return "doc:" + m.Doc
-	case "initialized", "config":
+	case "initialized", "config", "configq":
 		return "config"
 	}
 	return ""
@@ -418,6 +430,14 @@ func c14Oracle(c *core.Ctx, sc c14Scenario, choices []int, r vsched.Result, o, w
 	if len(r.Panics) > 0 {
 		c.Violate("panic|"+sc.Name+"|"+firstLine(fmt.Sprint(r.Panics[0])), "no crash", fmt.Sprint(r.Panics[0]), cs)
 		return true
+	}
+	if r.BlockedBehindClient > 0 {
+		// the thread that handles the client's messages waited for a lock which a
+		// background computation held while it was calling the client: a slow or
+		// blocked client then blocks every later notification and request
+		c.Violate("blocked|"+sc.Name+"|message handler waits for a lock held across a call to the client", "background work never blocks later notifications and requests",
+			fmt.Sprintf("%d lock acquisition(s) of the message-handling thread found the lock held by a background computation that was inside a call to the client", r.BlockedBehindClient), cs)
+		violated = true
 	}
 	for i := range want {
 		if i >= len(o) {
